@@ -256,6 +256,33 @@ def embed_rand(tier, seed, ci, nc, count=20000):
         yield ('embed', int(rng.random() < 0.8), int(rng.random() < 0.8), sigs)
 
 
+def _valid_names(ps):
+    ns = [q[0] for q in ps]
+    return len(set(ns)) == len(ns)
+
+
+def homonym_rand(tier, seed, ci, nc, count=20000):
+    """merge / embed on 2-4 valid signatures whose *named* parameters may be called like the star parameters of
+    another input (`args`, `kwargs`, `p`, `k`): the inputs the other random streams never build"""
+    rng = _rng(seed, 'homonym_rand', ci)
+    pool = ['a', 'b', 'args', 'kwargs', 'p', 'k']
+    n = 0
+    while n < count // nc:
+        k = rng.choice([2, 2, 3, 3, 4])
+        sigs = []
+        for i in range(k):
+            while True:
+                ps = core.rand_sig(rng, pool, 3, p_star=0.7)
+                if _valid_names(ps):
+                    break
+            sigs.append(D(ps, fn=i + 1))
+        n += 1
+        if rng.random() < 0.5:
+            yield ('embed', int(rng.random() < 0.85), int(rng.random() < 0.85), sigs)
+        else:
+            yield ('merge', sigs)
+
+
 # ----------------------------------------------------------------------------- forwards
 def forwards_rand(tier, seed, ci, nc, count=30000):
     rng = _rng(seed, 'forwards_rand', ci)
@@ -359,7 +386,7 @@ STREAMS = {
     'merge_roles': merge_roles, 'merge_laws': merge_laws,
     'embed_pairs': embed_pairs, 'embed_small': embed_small, 'embed_rand': embed_rand,
     'forwards_rand': forwards_rand, 'forwards_exh': forwards_exh,
-    'meta_rand': meta_rand, 'meta_post': meta_post,
+    'meta_rand': meta_rand, 'meta_post': meta_post, 'homonym_rand': homonym_rand,
 }
 
 
